@@ -50,6 +50,92 @@ LEAVES = [{"type": "string"}, {"type": "integer"}, {"type": "boolean"}, {"type":
           {"type": "string", "format": "uuid"}, {"type": "integer", "format": "uint8"}]
 
 
+_S = {"type": "string"}
+
+
+def _obj(req=True, **p):
+    return {"type": "object", "properties": p, "required": sorted(p) if req else []}
+
+
+def _variant(tag, val, body_key, body):
+    return {"type": "object", "properties": {"t": {"type": "string", "enum": [val]}, body_key: body},
+            "required": ["t", body_key]}
+
+
+# every entry kind that carries a type NAME (type_entry.rs:587-595), by the schema shape that produces it
+# (observed on the real code, see notes/C16.md): factory(rnd) -> schema
+NAMED_KINDS = {
+    "struct": lambda r: _obj(x=_S, **({"n": {"type": "integer"}} if r.random() < 0.5 else {})),
+    "enum_external_simple": lambda r: {"type": "string", "enum": r.sample(["a", "b", "c", "d"], r.randint(2, 3))},
+    "enum_external_struct": lambda r: {"oneOf": [
+        dict(_obj(A=_S), additionalProperties=False),
+        dict(_obj(B={"type": r.choice(["integer", "boolean"])}), additionalProperties=False)]},
+    "enum_internal": lambda r: {"oneOf": [_variant("t", "a", "x", _S), _variant("t", "b", "y", {"type": "integer"})]},
+    "enum_adjacent": lambda r: {"oneOf": [_variant("t", "a", "c", _S), _variant("t", "b", "c", {"type": "integer"})]},
+    "enum_untagged": lambda r: {"oneOf": [_S, {"type": r.choice(["integer", "boolean"])}]},
+    "newtype_string_length": lambda r: {"type": "string", "maxLength": r.randint(3, 12)},
+    "newtype_string_pattern": lambda r: {"type": "string", "pattern": r.choice(["^a+$", "^[0-9]{3}$"])},
+    "newtype_enum_values": lambda r: {"type": "integer", "enum": sorted(r.sample([1, 2, 3, 5, 8], 3))},
+    "newtype_deny_values": lambda r: {"type": "string", "not": {"enum": [r.choice(["bad", "worse"])]}},
+    # alias newtypes: only a DEFINITION of these shapes becomes a (named) newtype (lib.rs:733-748)
+    "alias_scalar": lambda r: {"type": r.choice(["string", "boolean", "number"])},
+    "alias_array": lambda r: {"type": "array", "items": _S},
+    "alias_map": lambda r: {"type": "object", "additionalProperties": {"type": "integer"}},
+    "alias_native_format": lambda r: {"type": "string", "format": r.choice(["uuid", "date"])},
+    "alias_integer_format": lambda r: {"type": "integer", "format": r.choice(["uint8", "int32"])},
+}
+# `not` together with `title` panics inside typify at add time (a rejection, DESIGN 3.1): no titled forms
+TITLE_UNSAFE = {"newtype_deny_values"}
+
+
+def readd_forms(kind, name, sc, other, fresh_names):
+    """later calls that add the SAME named thing again: (a) identical schema under the same hint / title,
+    (b) identical titled schema inline in a new struct / array / later batch, (c) same hint, other shape"""
+    o1, o2, o3 = fresh_names
+    out = [("a-hint", {"op": "add", "schema": sc, "name": name})]
+    if kind not in TITLE_UNSAFE:
+        t = dict(sc, title=name)
+        out += [("a-title", {"op": "add", "schema": t}),
+                ("b-property", {"op": "add", "schema": _obj(p=t), "name": o1}),
+                ("b-array-item", {"op": "add", "schema": {"type": "array", "items": t}}),
+                ("b-later-batch", {"op": "refs", "defs": {o2: _obj(q=t)}}),
+                ("b-root-property", {"op": "root", "doc": dict(_obj(r=t), title=o3)})]
+    out.append(("c-other-shape", {"op": "add", "schema": other, "name": name}))
+    return out
+
+
+def coverage_histories():
+    """systematic, seed independent: every named kind x every way of getting its name x every re-add form"""
+    import random as _r
+    hs = []
+    kinds = sorted(NAMED_KINDS)
+    for ki, kind in enumerate(kinds):
+        r = _r.Random(1600 + ki)
+        sc = NAMED_KINDS[kind](r)
+        other = NAMED_KINDS["struct" if kind != "struct" else "newtype_string_length"](r)
+        origins = [("definition", [{"op": "refs", "defs": {"Host": sc}}]),
+                   ("hint", [{"op": "add", "schema": sc, "name": "Host"}])]
+        if kind not in TITLE_UNSAFE:
+            t = dict(sc, title="Host")
+            origins += [("title", [{"op": "add", "schema": t}]),
+                        ("titled-property-of-definition", [{"op": "refs", "defs": {"Holder": _obj(h=t)}}]),
+                        ("titled-property-of-add", [{"op": "add", "schema": _obj(h=t), "name": "Holder"}]),
+                        ("titled-root", [{"op": "root", "doc": dict(sc, title="Host")}])]
+        for oname, first in origins:
+            forms = readd_forms(kind, "Host", sc, other, ("OuterOne", "LaterTwo", "RootThree"))
+            steps = list(first)
+            for _, st in forms:
+                steps.append(st)
+            steps.append(forms[0][1])          # exact repeat at the end, after everything else
+            hs.append({"steps": copy.deepcopy(steps), "coverage": "%s/%s" % (kind, oname)})
+            # and each form alone, directly after the origin
+            for fname, st in forms:
+                # (a batch / root form is not repeated: re-adding DEFINITIONS is finding C16-1)
+                hs.append({"steps": copy.deepcopy(list(first) + ([st, st] if st["op"] == "add" else [st])),
+                           "coverage": "%s/%s/%s" % (kind, oname, fname)})
+    return hs
+
+
 class Gen:
     def __init__(self, rnd, pool=None, tag=""):
         self.rnd = rnd
@@ -59,6 +145,7 @@ class Gen:
         self.tag = tag
         self.defs = {}     # def name -> schema, everything added so far (for refs from later calls)
         self.hints = []    # names used as hints/titles by add calls
+        self.named = []    # (type name, schema, kind): named things added so far, candidates for re-adding
 
     def fresh(self):
         if not self.free:
@@ -95,6 +182,10 @@ class Gen:
         return {"type": "object", "properties": props, "required": sorted(req)}
 
     def definition(self, refs):
+        self.last_kind = None
+        if self.rnd.random() < 0.30:
+            self.last_kind = self.rnd.choice(sorted(NAMED_KINDS))
+            return NAMED_KINDS[self.last_kind](self.rnd)
         r = self.rnd.random()
         if r < 0.70:
             return self.obj(2, refs)
@@ -116,6 +207,8 @@ class Gen:
             if cross and old and self.rnd.random() < 0.3:
                 refs += self.rnd.sample(old, min(2, len(old)))
             defs[nm] = self.definition(refs)
+            if self.last_kind:
+                self.named.append((nm, defs[nm], self.last_kind))
         self.defs.update(defs)
         return defs
 
@@ -131,8 +224,29 @@ class Gen:
             doc = dict(doc)
             doc["definitions"] = defs
             return {"op": "root", "doc": doc}
+        if r < 0.55 and self.named:
+            # re-add a named thing through another call form
+            nm, sc, kind = self.rnd.choice(self.named)
+            other = NAMED_KINDS[self.rnd.choice(sorted(NAMED_KINDS))](self.rnd)
+            forms = readd_forms(kind, nm, sc, other, (self.fresh(), self.fresh(), self.fresh()))
+            return copy.deepcopy(self.rnd.choice(forms)[1])
+        if r < 0.63:
+            # a named kind gets its name from a hint / a title / as titled property
+            kind = self.rnd.choice(sorted(NAMED_KINDS))
+            sc = NAMED_KINDS[kind](self.rnd)
+            nm = self.fresh()
+            self.named.append((nm, sc, kind))
+            w = self.rnd.random()
+            if kind in TITLE_UNSAFE or w < 0.4:
+                return {"op": "add", "schema": sc, "name": nm}
+            t = dict(sc, title=nm)
+            if w < 0.6:
+                return {"op": "add", "schema": t}
+            if w < 0.8:
+                return {"op": "add", "schema": _obj(h=t), "name": self.fresh()}
+            return {"op": "refs", "defs": {self.fresh(): _obj(h=t)}}
         adds = [s for s in history if s["op"] == "add"]
-        if r < 0.60 and adds:
+        if r < 0.70 and adds:
             return copy.deepcopy(self.rnd.choice(adds))                    # exact repeat of an earlier add
         old = list(self.defs)
         k = self.rnd.random()
@@ -494,6 +608,14 @@ def direct_oracles(steps, recs):
             if "panic" not in views and str(rid) not in views:
                 out.append({"kind": "returned-id-does-not-resolve", "step": t, "id": rid})
             returned.add(rid)
+            v = views.get(str(rid)) if "panic" not in views else None
+            if v and v["details"]["k"] in ("struct", "enum", "newtype") and prev is not None \
+                    and "panic" not in prev["views"]:
+                same = [int(i) for i, pv in prev["views"].items()
+                        if pv["name"] == v["name"] and pv["details"]["k"] in ("struct", "enum", "newtype")]
+                if same and rid not in same:
+                    out.append({"kind": "call-returns-new-id-for-existing-type-name", "step": t, "op": st["op"],
+                                "name": v["name"], "existing_ids": same, "id": rid})
         # closedness seen through the public API
         if "panic" not in views:
             for i, v in views.items():
@@ -544,6 +666,8 @@ def classify(steps, recs, v):
         return "C16-4"
     if v["kind"] in ("readd-returns-different-id", "readd-adds-definitions") and v["op"] in ("refs", "root"):
         return "C16-1"
+    if v["kind"] == "call-returns-new-id-for-existing-type-name" and v["op"] == "root":
+        return dup_class(steps, recs, t, v["name"])
     if v["kind"] == "readd-returns-different-id" and v["op"] == "add":
         # add; batch defining the same type name; add again
         if dup_class(steps, recs, t, None) is not None:
@@ -670,10 +794,23 @@ def load_corpus():
     return out
 
 
+def run_c16(cases):
+    """the harness binary; C16_BIN substitutes another build of it (used to replay seeded
+    regressions built from a scratch copy of /repo, notes/C16.md)"""
+    alt = os.environ.get("C16_BIN")
+    if not alt:
+        return vlib.run_bin("c16", cases)
+    inp = "".join(json.dumps(c) + "\n" for c in cases)
+    rc, out, err = vlib.sh([alt], input=inp, timeout=1800)
+    if rc != 0:
+        raise RuntimeError("%s failed: %s" % (alt, err[-2000:]))
+    return [json.loads(l) for l in out.splitlines() if l.strip()]
+
+
 def run_histories(hists, scan="names", chunk=100):
     res = []
     for i in range(0, len(hists), chunk):
-        res += vlib.run_bin("c16", [{"settings": h.get("settings", {}), "steps": h["steps"], "scan": scan}
+        res += run_c16([{"settings": h.get("settings", {}), "steps": h["steps"], "scan": scan}
                                     for h in hists[i:i + chunk]])
     return res
 
@@ -710,9 +847,13 @@ def run(ctx):
     corpus = load_corpus()
     hists = [{"steps": c["steps"], "settings": c.get("settings", {}), "corpus": c["file"],
               "expect": c.get("expect", []), "must_reject": c.get("must_reject", [])} for c in corpus]
+    cover = coverage_histories()
+    for c in cover:
+        hists.append({"steps": c["steps"], "seed_path": "coverage:" + c["coverage"], "coverage": c["coverage"]})
     for k in range(n_hist):
         hists.append({"steps": gen_history(rnd, maxlen), "seed_path": "%d/%d" % (ctx.seed, k)})
-    ctx.log("histories: %d corpus + %d generated (max %d calls)" % (len(corpus), n_hist, maxlen))
+    ctx.log("histories: %d corpus + %d coverage (named kinds x origins x re-add forms) + %d generated (max %d calls)" % (
+        len(corpus), len(cover), n_hist, maxlen))
 
     okm, outm = vlib.coq_make(["theories/Algo/Space.vo"])
     ctx.oblige("model Space.v compiles", okm, outm[-2000:])
@@ -723,6 +864,7 @@ def run(ctx):
     n_calls = n_failed_hist = n_readd = n_box = n_old_touched = n_replayed = 0
     op_dist, len_dist, viol_kinds = {}, {}, {}
     trace_err, hyp_bad, mism, k4, model_errors = [], [], [], [], []
+    flavours, readded, cover_failed = {}, {}, []
     findings = {f["id"]: f for f in ctx.findings_for()}
     # histories are processed in chunks: the per-call dumps are large and are dropped after each chunk
     CH = 60
@@ -777,6 +919,17 @@ def run(ctx):
                 its = [x for x in recs[-1]["render"]["items"] if x[1] == "struct" and x[0] == ""]
                 if its:
                     recs[-1]["render"]["items"].append(its[0])
+            # which named entry flavours occur, and are RE-ADDED through a later call (coverage, measured)
+            for t, rc in enumerate(recs):
+                for i_s, en in rc["dump"]["entries"].items():
+                    if is_named(en):
+                        fl = en["kind"] + ":" + ((en.get("tag") or {}).get("k") or (en.get("constraints") or {}).get("k") or "")
+                        flavours[fl] = flavours.get(fl, 0) + (1 if t == 0 or i_s not in recs[t - 1]["dump"]["entries"] else 0)
+                        rid = rc["res"].get("id")
+                        if t > 0 and rid is not None and str(rid) == i_s and i_s in recs[t - 1]["dump"]["entries"]:
+                            readded[fl] = readded.get(fl, 0) + 1
+            if "coverage" in h and any(rc["res"]["r"] != "ok" for rc in recs):
+                cover_failed.append({"coverage": h["coverage"], "results": [rc["res"] for rc in recs]})
             # ---- (b) direct oracles, clauses 1-3
             n_calls += len(steps)
             len_dist[len(steps)] = len_dist.get(len(steps), 0) + 1
@@ -839,9 +992,21 @@ def run(ctx):
             ctx.oblige("listed finding %s still reproduces on its witness" % fid, False,
                        "stale finding: the witness no longer violates the property")
     ctx.oblige("direct evaluation of clauses 1-3 on %d calls of %d histories: no unlisted violation" % (
-        n_calls, len(hists)), not unlisted, json.dumps(unlisted[:2], default=str)[:3000])
+        n_calls, len(hists)), not unlisted, "%d unlisted (%d in the systematic stream, %d in generated histories, %d in "
+               "the corpus); first: %s" % (
+                   len(unlisted), len([u for u in unlisted if str(u.get("source", "")).startswith("coverage:")]),
+                   len([u for u in unlisted if "/" in str(u.get("source", "")) and not str(u.get("source")).startswith("coverage:")]),
+                   len([u for u in unlisted if str(u.get("source", "")).endswith(".json")]),
+                   json.dumps(unlisted[:2], default=str)[:3000]))
     ctx.oblige("generated histories stay in the accepting region (failed calls in < 10%% of histories)",
                n_failed_hist * 10 <= max(1, n_hist), "%d of %d generated histories contain a failed call" % (n_failed_hist, n_hist))
+    want = ["struct:", "enum:external", "enum:internal", "enum:adjacent", "enum:untagged",
+            "newtype:string", "newtype:enum", "newtype:deny", "newtype:none"]
+    ctx.oblige("coverage stream: every call of the %d systematic histories is accepted" % len(cover),
+               not cover_failed, json.dumps(cover_failed[:2])[:1500])
+    ctx.oblige("coverage: every named entry flavour (struct, 4 enum taggings, 4 newtype flavours) is created AND "
+               "returned again by a later call", all(flavours.get(w) and readded.get(w) for w in want),
+               "created %s / re-returned %s" % (json.dumps(flavours, sort_keys=True), json.dumps(readded, sort_keys=True)))
     ctx.oblige("hypothesis of C16_ids_stable holds on every observed call (break_cycles touches no older entry)",
                not hyp_bad, json.dumps(hyp_bad[:1])[:2000])
     ctx.oblige("allocation-level trace derivable for every observed call (%d histories)" % len(hists),
@@ -897,11 +1062,18 @@ def run(ctx):
         "op_distribution": op_dist, "exact_repeats_of_an_earlier_call": n_readd,
         "generated_histories_with_failed_call": n_failed_hist,
         "violation_kinds_seen_incl_corpus": viol_kinds,
+        "coverage_histories": len(cover), "named_entry_flavours_created": flavours,
+        "named_entry_flavours_returned_again_by_a_later_call": readded,
         "break_cycles_snips_replayed": n_box, "older_entries_touched_by_break_cycles": n_old_touched,
         "split_sets": n_split, "split_variant_histories": n_variants,
         "model_replays": n_replayed, "model_mismatches": len(mism),
-        "rule": "generated histories: 1..%d calls from {add_ref_types 25%%, add_root_schema 20%%, exact repeat of an "
-                "earlier add 15%%, add_type_with_name 40%% (hint = existing definition 30%% / earlier hint 20%% / fresh)}; "
+        "rule": "systematic stream: 15 named-kind shapes x 6 origins (definition, hint, title, titled property of a "
+                "definition / of an add, titled root) x 7 re-add forms (same hint, same title, titled property, titled "
+                "array item, titled property in a later batch / root, same hint other shape), alone and in sequence; "
+                "generated histories: 1..%d calls from {add_ref_types 25%%, add_root_schema 20%%, re-add of a named "
+                "thing through another call form 10%%, new named kind by hint/title/titled property 8%%, exact repeat "
+                "of an earlier add 7%%, add_type_with_name 30%% (hint = existing definition 30%% / earlier hint 20%% / "
+                "fresh)}; 30%% of definitions are drawn from the named-kind catalogue; "
                 "definition names always fresh (clean region); distinct = distinct step list JSON" % maxlen,
     })
 
